@@ -33,7 +33,8 @@ MANIFEST = {
             "and firewalls in any order, every verdict permitting, succeed; with COLD caches a ping between two hosts on one switched "
             "LAN (other ports dead or other hosts, switch table arbitrary) and a ping host - router - host over direct cables (all "
             "three caches empty, the router's nested ARP exchange inside process_frame included) succeed, every ARP cascade part of "
-            "the statement. A host's next hop for a destination outside every enabled local subnet is ALWAYS its default gateway: "
+            "the statement; the same cold host - router - host family for the service exchange of any (port, protocol) key (port open "
+            "on both hosts, server software present, a rule on the router). A host's next hop for a destination outside every enabled local subnet is ALWAYS its default gateway: "
             "a function of interfaces and gateway only, never of the ARP cache (the host-side resolution function is translated "
             "statement by statement). Application exchanges identified by a (port, protocol) key (receiver look-up, open-port test, "
             "answer to the source) are in the model; the addressee, termination and fuel theorems range over them. Float metrics: on "
@@ -63,7 +64,7 @@ MODULES = ["PrimaiteModel.Props.C08", "PrimaiteModel.Props.C08Forward", "Primait
            "PrimaiteModel.Props.C08Addressee", "PrimaiteModel.Props.C08Liveness", "PrimaiteModel.Props.C08FuelMono",
            "PrimaiteModel.Props.C08Termination", "PrimaiteModel.Props.C08RouteOps", "PrimaiteModel.Props.C08Cold",
            "PrimaiteModel.Props.C08ColdRouter", "PrimaiteModel.Props.C08HostHop", "PrimaiteModel.Props.C08Metric",
-           "PrimaiteModel.Props.C08SwitchLearn"]
+           "PrimaiteModel.Props.C08SwitchLearn", "PrimaiteModel.Props.C08ColdApp"]
 EXE = "drv_c08"
 
 
